@@ -1,11 +1,12 @@
 --------------------------- MODULE JsonTextExport ---------------------------
 (* Evaluates JsonText's definitions and prints them as JSON for the Go      *)
 (* harness: the complete transition table and the byte -> class map.        *)
-(* Nothing here adds meaning; it only serialises StepFn and ClassOf.        *)
-EXTENDS JsonText, Json
+(* Nothing here adds meaning; it only serialises StepFn, ClassOf and the    *)
+(* token label of each transition (TokenStream).                             *)
+EXTENDS TokenStream, Json
 
 TableRows == { [m |-> m, t |-> t, c |-> c,
-                m2 |-> StepFn(m, t, c).mode, op |-> StepFn(m, t, c).op] :
+                m2 |-> StepFn(m, t, c).mode, op |-> StepFn(m, t, c).op, tok |-> TokenEvent(m, t, c)] :
                m \in Modes, t \in Tops, c \in Sym }
 ClassRows == { [b |-> x, c |-> ClassOf(x)] : x \in 0..255 }
 
